@@ -42,28 +42,31 @@ Stateful == {"TRANSFER_TOKENS", "CREATE_CONTRACT", "SET_DELEGATE"}
 NameOf(l, f, s, p) == [k \in 1..l |-> IF k = p THEN s ELSE f]
 Names == UNION {{NameOf(l, f, s, p) : f \in Fills, s \in Specials, p \in {1, (l + 1) \div 2, l}} : l \in NameLens}
 
-\* Code trees are generated level by level (nesting depth), every set tagged with the node count of
-\* its members, <<size, thing>>, so that each level is computed once from the level below.
-OfSize(T, k) == {x[2] : x \in {y \in T : y[1] = k}}
-RECURSIVE SeqsOf(_, _)
-SeqsOf(nodes, m) ==    \* bodies of at most m nodes drawn from `nodes`, at most CodeSize nodes in total
-  IF m = 0 THEN {<<0, <<>>>>}
-  ELSE LET r == SeqsOf(nodes, m - 1) IN
-       {<<0, <<>>>>}
-       \cup UNION {UNION {LET ns == OfSize(nodes, k)
-                              rs == OfSize(r, j)
-                          IN {<<k + j, <<n>> \o q>> : n \in ns, q \in rs} : j \in 0..CodeSize - k} : k \in 1..CodeSize}
+\* Code trees are generated level by level (nesting depth).  A level is a tuple T of sets, T[s + 1] = the
+\* bodies with exactly s nodes, so that each level is computed once from the level below.  The families
+\* of nodes are Cartesian products and are pairwise disjoint; they are joined with a right-nested \cup
+\* (TLC's UNION and left-nested \cup are quadratic in the size of the result).
+RECURSIVE CupAll(_)
+CupAll(sets) == IF Len(sets) = 0 THEN {} ELSE IF Len(sets) = 1 THEN sets[1] ELSE sets[1] \cup CupAll(Tail(sets))
+RECURSIVE Tab(_, _, _)         \* <<F(lo), .., F(hi)>> as a tuple, every entry evaluated once
+Tab(F(_), lo, hi) == IF lo > hi THEN <<>> ELSE <<F(lo)>> \o Tab(F, lo + 1, hi)
+NodesFrom(P) ==                \* P: level below; result N, N[s] = nodes with exactly s nodes
+  LET NodesOfSize(s) ==
+        CupAll((IF s = 1 THEN <<{"I"} \X Leaves>> ELSE <<>>)
+               \o <<{"C1"} \X P[s], {"L"} \X LamKinds \X P[s]>>
+               \o Tab(LAMBDA j : {"C2"} \X P[j + 1] \X P[s - j], 0, s - 1))
+  IN Tab(NodesOfSize, 1, CodeSize)
+RECURSIVE BodiesFrom(_, _)
+BodiesFrom(N, m) ==            \* T[s + 1] = bodies of at most m nodes drawn from N with exactly s nodes in total
+  IF m = 0 THEN Tab(LAMBDA s : IF s = 0 THEN {<<>>} ELSE {}, 0, CodeSize)
+  ELSE LET R == BodiesFrom(N, m - 1)
+           OfSize(s) == IF s = 0 THEN {<<>>}
+                        ELSE CupAll(Tab(LAMBDA k : {<<n>> \o q : n \in N[k], q \in R[s - k + 1]}, 1, s))
+       IN Tab(OfSize, 0, CodeSize)
 RECURSIVE Level(_)
-Level(d) ==            \* all bodies nested at most d deep
-  LET prev == IF d = 0 THEN {} ELSE Level(d - 1)
-      nodes == {<<1, <<"I", p>>>> : p \in Leaves}
-               \cup UNION {LET bs == OfSize(prev, s - 1)
-                           IN {<<s, <<"C1", b>>>> : b \in bs} \cup {<<s, <<"L", k, b>>>> : k \in LamKinds, b \in bs} : s \in 1..CodeSize}
-               \cup UNION {UNION {LET b1s == OfSize(prev, j)
-                                      b2s == OfSize(prev, s - 1 - j)
-                                  IN {<<s, <<"C2", b1, b2>>>> : b1 \in b1s, b2 \in b2s} : j \in 0..s-1} : s \in 1..CodeSize}
-  IN SeqsOf(nodes, MaxSeq)
-Codes == {x[2] : x \in Level(CodeDepth)}
+Level(d) == IF d = 0 THEN BodiesFrom(NodesFrom(Tab(LAMBDA s : {}, 0, CodeSize)), MaxSeq)
+            ELSE LET P == Level(d - 1) IN BodiesFrom(NodesFrom(P), MaxSeq)
+Codes == CupAll(Level(CodeDepth))
 
 (* ---------------- the checker, step by step ---------------- *)
 VARIABLES name, code,          \* the input, fixed after Pick
